@@ -66,6 +66,22 @@ def written_locations(body):
     return names, attrs, appends
 
 
+def inplace_names(body):
+    """names updated with an augmented assignment or a subscript store in the loop body"""
+    out = set()
+    for n in ast.walk(ast.Module(body=body, type_ignores=[])):
+        if isinstance(n, ast.AugAssign) and isinstance(n.target, ast.Name):
+            out.add(n.target.id)
+        if isinstance(n, (ast.Assign, ast.AugAssign)):
+            for t in (n.targets if isinstance(n, ast.Assign) else [n.target]):
+                b = t
+                while isinstance(b, ast.Subscript):
+                    b = b.value
+                if isinstance(t, ast.Subscript) and isinstance(b, ast.Name):
+                    out.add(b.id)
+    return out
+
+
 def placeholder_like(v, tag):
     if isinstance(v, Arr):
         if v.mask is not None:
@@ -165,10 +181,12 @@ def summarise_arr(orig, ph, name, out, i, iname, n, what):
     names = [T.symname(x) for x in idx]
     if not mentions(delta, name):
         # R3: additive fold, elementwise
+        ofn = orig.fn        # snapshot: orig itself may be updated in place with this result
+
         def fn(*jj, delta=delta):
             mp = {nm: P(j) for nm, j in zip(names, jj)}
             d = T.subst(delta, mp)
-            return P(orig.fn(*jj)) + T.mk_sum(i, n, d)
+            return P(ofn(*jj)) + T.mk_sum(i, n, d)
         return Arr(orig.shape, fn, orig.dtype, out.kind, origin=orig.origin)
     if not mentions(o, name):
         # plain rebinding inside the loop: the value of the last iteration
@@ -254,7 +272,7 @@ def symbolic_for(I, s, env, it, n):
         p, pname = placeholder_like(v, nm)
         if p is not None:
             saved[("n", nm)] = v
-            set_name(env, nm, p)
+            set_name(env, nm, p.view() if isinstance(p, Arr) else p)
             ph[("n", nm)] = (p, pname)
     for ch in sorted(attrs):
         try:
@@ -275,7 +293,7 @@ def symbolic_for(I, s, env, it, n):
         p, pname = placeholder_like(v, "%s.%s#%d" % (ch, fld, o.oid))
         if p is not None:
             saved[("a", o.oid, fld)] = (o, v)
-            o.fields[fld] = p
+            o.fields[fld] = p.view() if isinstance(p, Arr) else p
             ph[("a", o.oid, fld)] = (p, pname)
     # ---- run the body once
     I.assumed.add(T.cmp_cond("<=", ZERO, i))
@@ -313,7 +331,12 @@ def symbolic_for(I, s, env, it, n):
                 set_name(env, nm, SList(base_len + n, elem_fn))
                 continue
             if isinstance(p, Arr):
-                set_name(env, nm, summarise_arr(orig, p, pname, out, i, iname, n, nm))
+                res = summarise_arr(orig, p, pname, out, i, iname, n, nm)
+                if res is not orig and isinstance(orig, Arr) and res.ndim == orig.ndim and all(A.dim_eq(x, y) for x, y in zip(res.shape, orig.shape)) \
+                        and nm in inplace_names(s.body):
+                    orig.assign_from(res)       # accumulated in place: the object the caller may alias is updated
+                    res = orig
+                set_name(env, nm, res)
             else:
                 if isinstance(out, Arr):
                     # acc = 0; acc += array_i   -- a broadcast scalar start
@@ -427,7 +450,7 @@ def fold_objects(I, xs, start, inplace):
         p, pname = placeholder_like(v, "acc.%s#%d" % (fld, acc.oid))
         if p is not None and not isinstance(v, bool):
             ph[fld] = (p, pname)
-            acc.fields[fld] = p
+            acc.fields[fld] = p.view() if isinstance(p, Arr) else p
     I.assumed.add(T.cmp_cond("<=", ZERO, i))
     I.assumed.add(T.cmp_cond("<", i, n))
     pathlen = len(I.path)
